@@ -198,11 +198,12 @@ func init() {
 		}
 		var scripts []map[string]interface{}
 		var allOps [][]httpOp
+		noModel := map[int]bool{}
 		boolVals := []string{"", "true", "false", "1", "T", "yes", "TRUE", "0"}
 		for h := 0; h < nh; h++ {
 			var ops []httpOp
 			ncreated := 0
-			ids := []string{"A", "B", "C"}
+			ids := []string{"A", "B", "C", "a"} // "a" and "A" are different identifiers
 			odd := []string{"%ff", "%c3%28", "a%00b", "%e2%82", "id%20with%20blank", strings.Repeat("L", 300)}
 			pick := func() string {
 				if rng.Intn(12) == 0 {
@@ -238,7 +239,9 @@ func init() {
 					if rng.Intn(5) == 0 {
 						q = append(q, "other=1")
 					}
-					ops = append(ops, httpOp{Op: "create", CT: "text/plain", Query: strings.Join(q, "&"), Body: hex.EncodeToString([]byte(txt)),
+					// every content type that is not JSON is a text upload, whatever else the type suggests
+					cts := []string{"text/plain", "text/plain", "", "application/octet-stream", "application/x-www-form-urlencoded", "multipart/form-data; boundary=x"}
+					ops = append(ops, httpOp{Op: "create", CT: cts[rng.Intn(len(cts))], Query: strings.Join(q, "&"), Body: hex.EncodeToString([]byte(txt)),
 						margs: []string{"ct", optQ(sk), optQ(al), txt}})
 					ncreated++ // optimistic; references past the real count resolve to an unknown id on both sides
 				case 2, 3:
@@ -300,7 +303,30 @@ func init() {
 			long1 := strings.TrimRight(base, "\r\n") + strings.Repeat("\n", 66000) + "{6000}trailing segment*"
 			long2 := strings.TrimRight(base, "\r\n") + "\n{6000}" + strings.Repeat("A", 70000) + "*"
 			long3 := strings.Repeat("\n", 70000) + base
-			for _, lb := range []string{long1, long2, long3} {
+			longs := []string{long1, long2, long3}
+			var seg36 string
+			for _, sg := range splitSegments(base) {
+				if strings.HasPrefix(sg, "{3600}") {
+					seg36 = sg
+				}
+			}
+			if seg36 != "" {
+				for _, L := range []int{1 << 16, 1 << 18, 1 << 20} {
+					prefix := strings.TrimRight(base, "\r\n") + "\n"
+					unit := seg36 + "\n"
+					k := (L - len(prefix)) / len(unit)
+					body := prefix + strings.Repeat(unit, k)
+					body += strings.Repeat("\n", L-len(body)) // valid up to exactly L bytes (line breaks are ignored)
+					longs = append(longs, body+"{9999}not a tag\n")
+				}
+			}
+			for li, lb := range longs {
+				if len(lb) > 200000 {
+					noModel[len(allOps)] = true // the model's scanner is quadratic on such a text: implementation-side oracles only
+				}
+				if len(lb) > 600000 && !thorough && li < 0 {
+					continue
+				}
 				ops := []httpOp{
 					{Op: "create", CT: "text/plain", Body: hex.EncodeToString([]byte(base)), margs: []string{"ct", "~", "~", base}},
 					{Op: "create", CT: "text/plain", Body: hex.EncodeToString([]byte(lb)), margs: []string{"ct", "~", "~", lb}},
@@ -360,7 +386,7 @@ func init() {
 			var logs []string
 			json.Unmarshal(results[h]["logs"], &logs)
 			sym := func(real string) string {
-				for _, x := range []string{"A", "B", "C"} {
+				for _, x := range []string{"A", "B", "C", "a"} {
 					if real == x {
 						return x
 					}
@@ -498,7 +524,11 @@ func init() {
 				}
 				obs = append(obs, s)
 			}
-			o.Case("http:seq", strings.Join(obs, "|"), margs...)
+			if noModel[h] {
+				margs = []string{fmt.Sprint("history ", h, " (over-long upload, not evaluated by the model)")}
+			} else {
+				o.Case("http:seq", strings.Join(obs, "|"), margs...)
+			}
 			o.Case("prop:http-faithful", faithful, margs...)
 			o.Case("prop:http-list-consistent", listConsistent, margs...)
 			o.Case("prop:http-options-agree", optionsAgree, margs...)
